@@ -47,6 +47,7 @@ type CallRec struct {
 	Result  string // ok / nil / dup / err
 	Revoked bool   // for loads: the revoked flag the SDK was shown
 	RetCreated int64
+	Parent     int64 // created stamp of the parent key named by the row loaded / stored (0 if none)
 }
 
 func (w *World) curOp() *OpRec {
@@ -68,6 +69,7 @@ const (
 	FErrAfter  = "err-after"  // call applied, error returned (lost acknowledgement)
 	FFalseDup  = "false-dup"  // Store reports (false,nil) without inserting
 	FLatency   = "latency"
+	FRace      = "race" // Store only: another writer inserts the same (id, created) just before us
 )
 
 // FaultPlan decides, call by call, what goes wrong.
@@ -128,6 +130,10 @@ func (w *World) decide(class string, proc int, callIdx int, op *OpRec) string {
 			if class == "ms.store" {
 				kind = FFalseDup
 			}
+		case FRace:
+			if class == "ms.store" {
+				kind = FRace
+			}
 		}
 	} else if fp.Random && op != nil && op.Faulted < fp.MaxPerOp {
 		var cands []string
@@ -141,6 +147,9 @@ func (w *World) decide(class string, proc int, callIdx int, op *OpRec) string {
 			}
 			if class == "ms.store" && fp.Kinds["ms.falsedup"] {
 				cands = append(cands, FFalseDup)
+			}
+			if class == "ms.store" && fp.Kinds["ms.race"] {
+				cands = append(cands, FRace)
 			}
 		case isKMS:
 			if fp.Kinds["kms.err"] {
@@ -313,6 +322,9 @@ func (m *msView) Load(_ context.Context, id string, created int64) (*appencrypti
 	}
 	c.Revoked = kr.Revoked
 	c.RetCreated = kr.Created
+	if kr.ParentKeyMeta != nil {
+		c.Parent = kr.ParentKeyMeta.Created
+	}
 	m.w.leave(c, "ok")
 	return toEKR(id, kr), nil
 }
@@ -335,12 +347,18 @@ func (m *msView) LoadLatest(_ context.Context, id string) (*appencryption.Envelo
 	}
 	c.Revoked = kr.Revoked
 	c.RetCreated = kr.Created
+	if kr.ParentKeyMeta != nil {
+		c.Parent = kr.ParentKeyMeta.Created
+	}
 	m.w.leave(c, "ok")
 	return toEKR(id, kr), nil
 }
 
 func (m *msView) Store(_ context.Context, id string, created int64, e *appencryption.EnvelopeKeyRecord) (bool, error) {
 	c, f := m.w.enter("ms.store", m.proc, id, created)
+	if e != nil && e.ParentKeyMeta != nil {
+		c.Parent = e.ParentKeyMeta.Created
+	}
 	if f == FErrBefore {
 		m.w.leave(c, "err")
 		return false, fmt.Errorf("metastore store: %w", errInjected)
@@ -352,6 +370,9 @@ func (m *msView) Store(_ context.Context, id string, created int64, e *appencryp
 	opIdx := -1
 	if c.Op != nil {
 		opIdx = c.Op.Idx
+	}
+	if f == FRace {
+		m.w.Foreign().InsertSame(id, created, e.ParentKeyMeta != nil)
 	}
 	_, exists := m.w.Store.Rows[id][created]
 	if !exists {
